@@ -149,6 +149,10 @@ def rangeAfter (stream : List Id) (after : Id) (count : Option Nat) : List Id :=
   | none => stream.filter (fun x => idLt after x)
   | some n => (stream.filter (fun x => idLt after x)).take n
 
+/-- `s ≤ i ≤ e`, a missing bound being no bound (`-` / `+`) -/
+def inRange (s e : Option Id) (i : Id) : Bool :=
+  (match s with | some lo => idLe lo i | none => true) && (match e with | some hi => idLe i hi | none => true)
+
 namespace Code
 
 def newGroup (q : Quirks) (start : Id) : Group :=
@@ -374,10 +378,7 @@ def pendingInfo (g : Group) : Reply :=
 /-- XPENDING with a range: pending rows with `s ≤ id ≤ e`, of consumer `c` if given, in id order.
     Delivery counts are not prescribed (reported as 0). -/
 def pendingRange (g : Group) (s e : Option Id) (count : Nat) (c : Option Name) : Reply :=
-  let ok := fun (x : Id × Name) =>
-    (match s with | some lo => idLe lo x.1 | none => true) &&
-    (match e with | some hi => idLe x.1 hi | none => true) &&
-    (match c with | some c => x.2 == c | none => true)
+  let ok := fun (x : Id × Name) => inRange s e x.1 && (match c with | some c => x.2 == c | none => true)
   .entries (((g.pending.filter ok).take count).map (fun x => (x.1, x.2, 0)))
 
 /-- One operation; `none` as reply = the property does not prescribe the reply. -/
@@ -486,12 +487,6 @@ inductive HOp
   | del (ids : List Id)
   | g (op : GOp)
 deriving DecidableEq, Repr
-
-/-- Ghost log of deliveries made under `>`: (id, consumer), in delivery order. -/
-def logOf (op : GOp) (r : List Id) : List (Id × Name) :=
-  match op with
-  | .read c none _ _ => r.map (fun i => (i, c))
-  | _ => []
 
 namespace Spec
 structure Sys where
